@@ -324,3 +324,20 @@ Fixpoint interleaveN (apps : list N) (sched : list nat) (fuel : nat) (st : dstat
       end
     end
   end.
+(* the operations of such a run, tagged with the handler that performed them *)
+Fixpoint itraceN (apps : list N) (sched : list nat) (fuel : nat) (st : dstate) (ps : list prog) : list (nat * string) :=
+  match fuel with
+  | O => []
+  | S f =>
+    match choose (hd O sched) ps with
+    | None => []
+    | Some i =>
+      match nth_error ps i with
+      | Some (Do o k) =>
+        let '(st', r, _) := exec apps st o in
+        let p' := if at_buffer_read (k r) && others_at_buffer i ps then Halt [] else k r in
+        (i, sop_name o) :: itraceN apps (tl sched) f st' (replace_nth i p' ps)
+      | _ => []
+      end
+    end
+  end.
